@@ -109,5 +109,10 @@ class Judge:
         if value <= 100 * nz:
             self.R.undecided(monitor, 'ill-conditioned case (mismatch within 100x replica noise)')
             return True
+        if nz > 100 * tol:
+            # a 2^-50 relative perturbation of the input already moves the result by more than 100x the tolerance: the
+            # trajectory amplifies rounding by > 1e9 and no finite multiple of the replica noise bounds a reordering of sums
+            self.R.undecided(monitor, 'chaotic trajectory (replica noise > 100x tolerance)')
+            return True
         self.R.fail(monitor, key, msg + f' (replica noise {nz:.2e})', **info)
         return False
